@@ -39,6 +39,7 @@ def run(ctx):
     P = 'C12'
     seipdv2(ctx, P)
     skesk(ctx, P)
+    algorithm_tables(ctx, P)
     secret_key_aead(ctx, P)
     s2k(ctx, P)
     mdc(ctx, P)
@@ -69,6 +70,31 @@ def seipdv2(ctx, P):
     for u in users:
         if 'encryptor' not in u and 'decryptor' not in u:
             ctx.functions.discard(u)
+
+
+RFC_KEY_SIZE = {'Plaintext': 0, 'IDEA': 16, 'TripleDES': 24, 'CAST5': 16, 'Blowfish': 16, 'AES128': 16, 'AES192': 24, 'AES256': 32, 'Twofish': 32,
+                'Camellia128': 16, 'Camellia192': 24, 'Camellia256': 32}
+RFC_BLOCK_SIZE = {'Plaintext': 0, 'IDEA': 8, 'TripleDES': 8, 'CAST5': 8, 'Blowfish': 8, 'AES128': 16, 'AES192': 16, 'AES256': 16, 'Twofish': 16,
+                  'Camellia128': 16, 'Camellia192': 16, 'Camellia256': 16}
+RFC_AEAD_NONCE = {'Eax': 16, 'Ocb': 15, 'Gcm': 12}
+
+
+def algorithm_tables(ctx, P):
+    """RFC 9580 §9.3 / §5.13: key and block sizes per cipher, nonce sizes per AEAD mode (tables read off the match arms)."""
+    from rules.tables import variant_to_int_table
+    for path, want, nm in (('crypto::sym::SymmetricKeyAlgorithm::key_size', RFC_KEY_SIZE, 'key-size'),
+                           ('crypto::sym::SymmetricKeyAlgorithm::block_size', RFC_BLOCK_SIZE, 'block-size'),
+                           ('crypto::aead::AeadAlgorithm::nonce_size', RFC_AEAD_NONCE, 'aead-nonce-size'),
+                           ('crypto::aead::AeadAlgorithm::iv_size', RFC_AEAD_NONCE, 'aead-iv-size')):
+        b = ctx.body(path)
+        if b is None:
+            ctx.missing(P + ':alg-table:' + nm, path + ' not found')
+            continue
+        t = variant_to_int_table(b)
+        bad = {v: t.get(v) for v, n in want.items() if t.get(v) != n}
+        extra = {v: n for v, n in t.items() if v not in want and n not in (0, 'derived')}
+        ctx.check(P + ':alg-table:' + nm, 'R-table', '%s per algorithm equals the RFC 9580 table; unknown / private ids get 0' % nm, not bad and not extra, function=path,
+                  table=t, missing=(bad or extra) or None)
 
 
 def secret_key_aead(ctx, P):
